@@ -158,6 +158,13 @@ impl HashSet {
                 })?;
             }
 
+            // the count must be the number of occupied slots, or later inserts find no room
+            if coupons.iter().filter(|&&c| c != COUPON_EMPTY).count() != coupon_count {
+                return Err(Error::deserial(format!(
+                    "hash set table does not hold the declared {coupon_count} coupons"
+                )));
+            }
+
             Ok(Self {
                 container: Container::from_coupons(
                     lg_arr,
